@@ -265,11 +265,7 @@ def ref_eval(st, items, file, files=None, strip=False, expander=None, ignore_inc
             st.out.append(Tok(x.tok, ('src', file, x.off)))
         elif isinstance(x, Com):
             if not strip:
-                pos = 0
-                for t in split_ws(x.text):
-                    k = x.text.index(t, pos)
-                    pos = k + len(t)
-                    st.out.append(Tok(t, ('com', file, x.off + len(x.text[:k].encode('utf-8')))))
+                st.out.append(Tok(x.text, ('com', file, x.off)))
         elif isinstance(x, Def):
             if x.name not in PREDEFINED:
                 st.table[x.name] = (True, {'body': x.body, 'file': file, 'body_off': getattr(x, 'body_off', None),
